@@ -307,4 +307,318 @@ theorem verify_honest_bits (hn : 0 < n) (hsib : NoEqualSiblings H leaf n) (flags
   rfl
 
 end top
+/-! ### arbitrary runs of `_recurse`: consumption is determined by the flags; equal results come from equal hashes or a collision -/
+
+/-- how many hashes and flag bits `_recurse` consumes: a function of the flags and the tree geometry only -/
+def shape (widths : List Nat) (flags : Bytes) : Nat → Nat → Nat → Nat → Option (Nat × Nat)
+  | fuel, levelIndex, nodeIndex, flagIndex =>
+    match flagBit flags flagIndex with
+    | none => none
+    | some false => some (1, flagIndex + 1)
+    | some true =>
+      if levelIndex = widths.length - 1 then some (1, flagIndex + 1)
+      else
+        match fuel with
+        | 0 => none
+        | fuel + 1 =>
+          match shape widths flags fuel (levelIndex + 1) (nodeIndex * 2) (flagIndex + 1) with
+          | none => none
+          | some (k1, f1) =>
+            match widths[levelIndex + 1]? with
+            | none => none
+            | some w =>
+              if nodeIndex * 2 + 1 < w then
+                match shape widths flags fuel (levelIndex + 1) (nodeIndex * 2 + 1) f1 with
+                | none => none
+                | some (k2, f2) => some (k1 + k2, f2)
+              else some (k1, f1)
+
+theorem pop_ok {stk s : List Bytes} {h : Bytes} (hp : pop stk = .ok (h, s)) : stk = s ++ [h] := by
+  unfold pop at hp
+  split at hp
+  · cases hp
+  · rename_i x hx
+    injection hp with hp
+    injection hp with h1 h2
+    subst h1 h2
+    obtain ⟨ys, hys⟩ := List.getLast?_eq_some_iff.mp hx
+    subst hys
+    simp
+
+variable (H : Bytes → Bytes) (W : List Nat) (flags : Bytes)
+
+theorem recurse_ok_inv : ∀ fuel li ni stk fi acc h s f a,
+    recurse H W flags fuel li ni stk fi acc = .ok (h, s, f, a) →
+    ∃ seg, stk = s ++ seg ∧ shape W flags fuel li ni fi = some (seg.length, f) := by
+  intro fuel
+  induction fuel with
+  | zero =>
+    intro li ni stk fi acc h s f a hr
+    rw [recurse] at hr
+    rw [shape]
+    split at hr
+    · cases hr
+    · split at hr
+      · cases hr
+      · rename_i heq
+        injection hr with hr; injection hr with e1 hr; injection hr with e2 hr; injection hr with e3 e4
+        subst e1 e2 e3 e4
+        exact ⟨[_], pop_ok heq, by simp [*]⟩
+    · split at hr
+      · split at hr
+        · cases hr
+        · rename_i heq
+          injection hr with hr; injection hr with e1 hr; injection hr with e2 hr; injection hr with e3 e4
+          subst e1 e2 e3 e4
+          exact ⟨[_], pop_ok heq, by simp [*]⟩
+      · cases hr
+  | succ fuel ih =>
+    intro li ni stk fi acc h s f a hr
+    rw [recurse] at hr
+    rw [shape]
+    split at hr
+    · cases hr
+    · split at hr
+      · cases hr
+      · rename_i heq
+        injection hr with hr; injection hr with e1 hr; injection hr with e2 hr; injection hr with e3 e4
+        subst e1 e2 e3 e4
+        exact ⟨[_], pop_ok heq, by simp [*]⟩
+    · split at hr
+      · split at hr
+        · cases hr
+        · rename_i heq
+          injection hr with hr; injection hr with e1 hr; injection hr with e2 hr; injection hr with e3 e4
+          subst e1 e2 e3 e4
+          exact ⟨[_], pop_ok heq, by simp [*]⟩
+      · rename_i hbit hlast
+        simp only [hbit, hlast, if_false]
+        split at hr
+        · cases hr
+        · rename_i left s1 f1 a1 hleft
+          obtain ⟨seg1, hs1, hsh1⟩ := ih _ _ _ _ _ _ _ _ _ hleft
+          simp only [hsh1]
+          split at hr
+          · cases hr
+          · rename_i w hw
+            split at hr
+            · rename_i hlt
+              split at hr
+              · cases hr
+              · rename_i right s2 f2 a2 hright
+                obtain ⟨seg2, hs2, hsh2⟩ := ih _ _ _ _ _ _ _ _ _ hright
+                split at hr
+                · cases hr
+                · injection hr with hr; injection hr with e1 hr; injection hr with e2 hr; injection hr with e3 e4
+                  subst e1 e2 e3 e4
+                  refine ⟨seg2 ++ seg1, by rw [hs1, hs2, List.append_assoc], ?_⟩
+                  simp only [hw, hlt, if_true, hsh2, List.length_append]
+                  rw [Nat.add_comm]
+            · rename_i hlt
+              injection hr with hr; injection hr with e1 hr; injection hr with e2 hr; injection hr with e3 e4
+              subst e1 e2 e3 e4
+              exact ⟨seg1, hs1, by simp only [hw, hlt, if_false]⟩
+
+
+theorem verify_ok_inv {n : Nat} {hs : List Bytes} {root : Bytes} {r : List Bytes}
+    (hv : verify H n hs flags root = .ok r) :
+    ∃ f, recurse H (levelWidths n) flags ((levelWidths n).length - 1) 0 0 hs.reverse 0 [] = .ok (root, [], f, r) := by
+  unfold verify at hv
+  dsimp only at hv
+  split at hv
+  · cases hv
+  · rename_i h rest f a hrec
+    split at hv
+    · cases hv
+    · rename_i hrest
+      split at hv
+      · cases hv
+      · split at hv
+        · cases hv
+        · split at hv
+          · cases hv
+          · split at hv
+            · cases hv
+            · rename_i hroot
+              injection hv with hv
+              subst hv
+              have : rest = [] := by
+                cases rest with
+                | nil => rfl
+                | cons x xs => simp at hrest
+              subst this
+              have : h = root := Classical.not_not.mp hroot
+              subst this
+              exact ⟨f, hrec⟩
+
+/-- two accepted proofs for the same transaction count and flag bytes carry the same number of hashes -/
+theorem verify_count {n : Nat} {hs hs' : List Bytes} {root root' : Bytes} {r r' : List Bytes}
+    (hv : verify H n hs flags root = .ok r) (hv' : verify H n hs' flags root' = .ok r') : hs.length = hs'.length := by
+  obtain ⟨f, h1⟩ := verify_ok_inv H flags hv
+  obtain ⟨f', h2⟩ := verify_ok_inv H flags hv'
+  obtain ⟨seg, e1, s1⟩ := recurse_ok_inv H _ flags _ _ _ _ _ _ _ _ _ _ h1
+  obtain ⟨seg', e2, s2⟩ := recurse_ok_inv H _ flags _ _ _ _ _ _ _ _ _ _ h2
+  rw [s1] at s2
+  injection s2 with s2
+  injection s2 with s2 _
+  have l1 := congrArg List.length e1
+  have l2 := congrArg List.length e2
+  simp at l1 l2
+  omega
+
+
+/-- an explicit collision of the node hash on two 64-byte inputs -/
+def Collision : Prop := ∃ x y : Bytes, x.length = 64 ∧ y.length = 64 ∧ x ≠ y ∧ H x = H y
+
+theorem append_inj32 {a b c d : Bytes} (ha : a.length = 32) (hc : c.length = 32) (h : a ++ b = c ++ d) : a = c ∧ b = d :=
+  List.append_inj h (by omega)
+
+theorem pop_two {stk1 stk2 s1 s2 : List Bytes} {h1 h2 : Bytes}
+    (m1 : ∀ x ∈ stk1, x.length = 32) (m2 : ∀ x ∈ stk2, x.length = 32)
+    (p1 : pop stk1 = .ok (h1, s1)) (p2 : pop stk2 = .ok (h2, s2)) :
+    ∃ seg1 seg2, stk1 = s1 ++ seg1 ∧ stk2 = s2 ++ seg2 ∧ h1.length = 32 ∧ h2.length = 32 ∧
+      (h1 = h2 → seg1 = seg2 ∨ Collision H) := by
+  have e1 := pop_ok p1
+  have e2 := pop_ok p2
+  refine ⟨[h1], [h2], e1, e2, m1 h1 (by simp [e1]), m2 h2 (by simp [e2]), ?_⟩
+  intro h; left; rw [h]
+
+theorem recurse_two (hlen : ∀ x, (H x).length = 32) : ∀ fuel li ni fi stk1 stk2 acc1 acc2 h1 h2 s1 s2 f1 f2 a1 a2,
+    (∀ x ∈ stk1, x.length = 32) → (∀ x ∈ stk2, x.length = 32) →
+    recurse H W flags fuel li ni stk1 fi acc1 = .ok (h1, s1, f1, a1) →
+    recurse H W flags fuel li ni stk2 fi acc2 = .ok (h2, s2, f2, a2) →
+    ∃ seg1 seg2, stk1 = s1 ++ seg1 ∧ stk2 = s2 ++ seg2 ∧ f1 = f2 ∧ h1.length = 32 ∧ h2.length = 32 ∧
+      (h1 = h2 → seg1 = seg2 ∨ Collision H) := by
+  intro fuel
+  induction fuel with
+  | zero =>
+    intro li ni fi stk1 stk2 acc1 acc2 h1 h2 s1 s2 f1 f2 a1 a2 m1 m2 hr1 hr2
+    rw [recurse] at hr1 hr2
+    cases hbit : flagBit flags fi with
+    | none => simp [hbit] at hr1
+    | some b =>
+      simp only [hbit] at hr1 hr2
+      cases b with
+      | false =>
+        dsimp only at hr1 hr2
+        split at hr1
+        · cases hr1
+        · rename_i p1
+          split at hr2
+          · cases hr2
+          · rename_i p2
+            injection hr1 with hr1; injection hr1 with e1 hr1; injection hr1 with e2 hr1; injection hr1 with e3 e4
+            injection hr2 with hr2; injection hr2 with e1' hr2; injection hr2 with e2' hr2; injection hr2 with e3' e4'
+            subst e1 e2 e3 e4 e1' e2' e3' e4'
+            obtain ⟨g1, g2, q1, q2, q3, q4, q5⟩ := pop_two H m1 m2 p1 p2
+            exact ⟨g1, g2, q1, q2, rfl, q3, q4, q5⟩
+      | true =>
+        dsimp only at hr1 hr2
+        by_cases hl : li = W.length - 1
+        · rw [if_pos hl] at hr1 hr2
+          split at hr1
+          · cases hr1
+          · rename_i p1
+            split at hr2
+            · cases hr2
+            · rename_i p2
+              injection hr1 with hr1; injection hr1 with e1 hr1; injection hr1 with e2 hr1; injection hr1 with e3 e4
+              injection hr2 with hr2; injection hr2 with e1' hr2; injection hr2 with e2' hr2; injection hr2 with e3' e4'
+              subst e1 e2 e3 e4 e1' e2' e3' e4'
+              obtain ⟨g1, g2, q1, q2, q3, q4, q5⟩ := pop_two H m1 m2 p1 p2
+              exact ⟨g1, g2, q1, q2, rfl, q3, q4, q5⟩
+        · rw [if_neg hl] at hr1
+          cases hr1
+  | succ fuel ih =>
+    intro li ni fi stk1 stk2 acc1 acc2 h1 h2 s1 s2 f1 f2 a1 a2 m1 m2 hr1 hr2
+    rw [recurse] at hr1 hr2
+    cases hbit : flagBit flags fi with
+    | none => simp [hbit] at hr1
+    | some b =>
+      simp only [hbit] at hr1 hr2
+      cases b with
+      | false =>
+        dsimp only at hr1 hr2
+        split at hr1
+        · cases hr1
+        · rename_i p1
+          split at hr2
+          · cases hr2
+          · rename_i p2
+            injection hr1 with hr1; injection hr1 with e1 hr1; injection hr1 with e2 hr1; injection hr1 with e3 e4
+            injection hr2 with hr2; injection hr2 with e1' hr2; injection hr2 with e2' hr2; injection hr2 with e3' e4'
+            subst e1 e2 e3 e4 e1' e2' e3' e4'
+            obtain ⟨g1, g2, q1, q2, q3, q4, q5⟩ := pop_two H m1 m2 p1 p2
+            exact ⟨g1, g2, q1, q2, rfl, q3, q4, q5⟩
+      | true =>
+        dsimp only at hr1 hr2
+        by_cases hl : li = W.length - 1
+        · rw [if_pos hl] at hr1 hr2
+          split at hr1
+          · cases hr1
+          · rename_i p1
+            split at hr2
+            · cases hr2
+            · rename_i p2
+              injection hr1 with hr1; injection hr1 with e1 hr1; injection hr1 with e2 hr1; injection hr1 with e3 e4
+              injection hr2 with hr2; injection hr2 with e1' hr2; injection hr2 with e2' hr2; injection hr2 with e3' e4'
+              subst e1 e2 e3 e4 e1' e2' e3' e4'
+              obtain ⟨g1, g2, q1, q2, q3, q4, q5⟩ := pop_two H m1 m2 p1 p2
+              exact ⟨g1, g2, q1, q2, rfl, q3, q4, q5⟩
+        · rw [if_neg hl] at hr1 hr2
+          split at hr1
+          · cases hr1
+          · rename_i l1 t1 g1 b1 hL1
+            split at hr2
+            · cases hr2
+            · rename_i l2 t2 g2 b2 hL2
+              obtain ⟨sl1, sl2, es1, es2, ef, ll1, ll2, imp⟩ := ih _ _ _ _ _ _ _ _ _ _ _ _ _ _ _ m1 m2 hL1 hL2
+              subst ef
+              cases hw : W[li + 1]? with
+              | none => simp [hw] at hr1
+              | some w =>
+                simp only [hw] at hr1 hr2
+                by_cases hlt : ni * 2 + 1 < w
+                · rw [if_pos hlt] at hr1 hr2
+                  split at hr1
+                  · cases hr1
+                  · rename_i r1 u1 k1 c1 hR1
+                    split at hr2
+                    · cases hr2
+                    · rename_i r2 u2 k2 c2 hR2
+                      have m1' : ∀ x ∈ t1, x.length = 32 := fun x hx => m1 x (by rw [es1]; simp [hx])
+                      have m2' : ∀ x ∈ t2, x.length = 32 := fun x hx => m2 x (by rw [es2]; simp [hx])
+                      obtain ⟨sr1, sr2, et1, et2, ef', lr1, lr2, impR⟩ :=
+                        ih _ _ _ _ _ _ _ _ _ _ _ _ _ _ _ m1' m2' hR1 hR2
+                      split at hr1
+                      · cases hr1
+                      · split at hr2
+                        · cases hr2
+                        · injection hr1 with hr1; injection hr1 with e1 hr1; injection hr1 with e2 hr1; injection hr1 with e3 e4
+                          injection hr2 with hr2; injection hr2 with e1' hr2; injection hr2 with e2' hr2; injection hr2 with e3' e4'
+                          subst e1 e2 e3 e4 e1' e2' e3' e4'
+                          refine ⟨sr1 ++ sl1, sr2 ++ sl2, by rw [es1, et1, List.append_assoc],
+                            by rw [es2, et2, List.append_assoc], ef', hlen _, hlen _, ?_⟩
+                          intro heq
+                          by_cases hxy : l1 ++ r1 = l2 ++ r2
+                          · obtain ⟨ea, eb⟩ := append_inj32 ll1 ll2 hxy
+                            rcases imp ea with h | h
+                            · rcases impR eb with h' | h'
+                              · left; rw [h, h']
+                              · right; exact h'
+                            · right; exact h
+                          · right
+                            exact ⟨l1 ++ r1, l2 ++ r2, by simp [ll1, lr1], by simp [ll2, lr2], hxy, heq⟩
+                · rw [if_neg hlt] at hr1 hr2
+                  injection hr1 with hr1; injection hr1 with e1 hr1; injection hr1 with e2 hr1; injection hr1 with e3 e4
+                  injection hr2 with hr2; injection hr2 with e1' hr2; injection hr2 with e2' hr2; injection hr2 with e3' e4'
+                  subst e1 e2 e3 e4 e1' e2' e3' e4'
+                  refine ⟨sl1, sl2, es1, es2, rfl, hlen _, hlen _, ?_⟩
+                  intro heq
+                  by_cases hxy : l1 ++ l1 = l2 ++ l2
+                  · obtain ⟨ea, _⟩ := append_inj32 ll1 ll2 hxy
+                    exact imp ea
+                  · right
+                    exact ⟨l1 ++ l1, l2 ++ l2, by simp [ll1], by simp [ll2], hxy, heq⟩
+
 end Pycoin.MerkleBlock
